@@ -60,6 +60,77 @@ pub fn generate(prop: &str, tier: &str, r: &mut Rng, out: &mut Vec<String>) -> G
                 exhaustive: false,
             }
         }
+        "C19" => {
+            let n = if thorough { 300_000 } else { 5_000 };
+            let lim = Limits { max_depth: 3, boundary: false };
+            for i in 0..n {
+                let mut rr = r.fork();
+                if i % 3 == 2 {
+                    out.push(format!("iter {}", value_str(&gen_value(&mut rr, &lim, 0, false))));
+                } else {
+                    out.push(crate::gen2::gen_add_seq(&mut rr));
+                }
+            }
+            GenInfo { rule: "seeded random histories: a start message (empty, builder-like, or parser-like with repeated groups) followed by 0-12 add(group kind, name, value) operations over a small name pool (so that replacement happens), compared after the whole history incl. groups_of for all five kinds; and random values of all kinds traversed to exhaustion plus two further next() calls; non-trivial = distinct case lines".into(), exhaustive: false }
+        }
+        "C17" => {
+            let n = if thorough { 300_000 } else { 5_000 };
+            for _ in 0..n {
+                let mut rr = r.fork();
+                out.push(crate::gen2::gen_ready(&mut rr));
+            }
+            GenInfo { rule: "seeded random responses: status (successful codes, client/server errors, undefined codes) x printer groups (none, one, two) x printer-state (absent, idle, processing, stopped, other and negative enum values, wrong syntaxes, a set) x printer-state-reasons (absent, keyword, sets of 2-6 keywords with a blocking word at a random position, near-miss spellings, wrong syntaxes, a collection) x unrelated attributes and groups; non-trivial = distinct case lines".into(), exhaustive: false }
+        }
+        "C18" => {
+            crate::gen2::option_texts(out, r, if thorough { 300_000 } else { 5_000 });
+            GenInfo { rule: "option value texts of every class: true/false and near misses, decimal integers with signs, leading zeros, the i32 boundaries and beyond, non-ASCII digits, embedded spaces and letters, arbitrary UTF-8 keywords, values containing '='; non-trivial = distinct texts".into(), exhaustive: false }
+        }
+        "C13" => {
+            let n = if thorough { 500_000 } else { 5_000 };
+            for i in 0..n {
+                let mut rr = r.fork();
+                let u = crate::gen2::gen_uri(&mut rr);
+                if i % 4 == 3 {
+                    let kind = *rr.pick(&crate::gen2::KINDS[..11]);
+                    out.push(format!("build {}", crate::gen2::gen_build_args(&mut rr, kind)));
+                } else {
+                    out.push(crate::gen2::canon_line(&u));
+                }
+            }
+            GenInfo { rule: "seeded structured target URIs scheme://[user[:password]@]host[:port][/path][?query] with scheme in {http,https,ipp,ipps}, hosts of all three forms (registered name, IPv4, bracketed IPv6), ports 1-65535 or absent, percent-encoded paths, user-info and query carrying marker tokens (user-info incl. ':' and '@'); through canonicalize_uri and, every fourth case, through a request constructor or builder; non-trivial = distinct URIs the http crate accepts".into(), exhaustive: false }
+        }
+        "C14" => {
+            let n = if thorough { 500_000 } else { 5_000 };
+            for _ in 0..n {
+                let mut rr = r.fork();
+                let u = crate::gen2::gen_uri(&mut rr);
+                out.push(crate::gen2::transport_line(&u));
+            }
+            GenInfo { rule: "seeded structured target URIs as for C13, through the cfg-guarded wrapper of ipp_uri_to_string; expected URL from the generator's ground truth per RFC 3510 / RFC 7472 (port 631 for both schemes); non-trivial = distinct URIs the http crate accepts".into(), exhaustive: false }
+        }
+        "C10" => {
+            let n = if thorough { 200_000 } else { 5_000 };
+            for i in 0..n {
+                let mut rr = r.fork();
+                let kind = crate::gen2::KINDS[i % crate::gen2::KINDS.len()];
+                out.push(format!("build {}", crate::gen2::gen_build_args(&mut rr, kind)));
+            }
+            GenInfo { rule: "all 10 operation builders and the two raw constructors in rotation, each with a seeded random target URI, job id, payload and a sequence of 0-6 builder calls drawn from the methods that builder has (repeated single-valued setters, accumulating setters with 0-3 items, arbitrary UTF-8 texts and attribute values); non-trivial = distinct case lines that build a request".into(), exhaustive: false }
+        }
+        "C09" => {
+            let shapes = if thorough { 400 } else { 20 };
+            let instances = if thorough { 150 } else { 120 };
+            for s in 0..shapes {
+                for kind in crate::gen2::KINDS {
+                    let mut rr = Rng::new(r.next() ^ s as u64);
+                    let line = format!("order {} {}", crate::gen2::gen_build_args(&mut rr, kind), crate::gen2::gen_adds(&mut rr));
+                    for _ in 0..instances / 12 {
+                        out.push(line.clone());
+                    }
+                }
+            }
+            GenInfo { rule: "12 request shapes (10 builders, 2 raw constructors) x seeded random arguments, builder calls and 0-5 further additions (incl. job-uri, job-id, printer-uri, charset in any order), each shape built as several fresh instances (fresh randomly keyed hash maps) and encoded; the bytes up to the end of the RFC 8011 header attributes are compared and the order oracle reads the names off the wire; non-trivial counts distinct shapes".into(), exhaustive: false }
+        }
         "C04" => {
             let n = if thorough { 200_000 } else { 3_000 };
             let lim = crate::wiregen::WLimits { max_depth: if thorough { 6 } else { 4 }, malformed_per_mille: 8, boundary: true };
